@@ -11,6 +11,12 @@ def parseKind (s : String) : Kind := if s == "P" then .poll else .native
 
 def shapeCount (sh : String) : Nat := if sh == "s" || sh == "1" then 1 else if sh == "s1" || sh == "2" then 2 else 0
 
+/-- hooks that call `Config::file_watcher` only keep the path set that is configured when they fire: the one in force for the worker
+    run in which they fire (there is at most one pending hook, so nothing else changes the path set before it fires). `keep` lists the
+    names of the pending kind-only hooks; their path set is refreshed before every worker run. -/
+def resolveKeep (keep : List String) (s : St) : St :=
+  { s with hooks := s.hooks.map (fun (n, c) => if keep.contains n then (n, { c with paths := s.cfg.paths }) else (n, c)) }
+
 def report (s : St) : String × St :=
   let calls := (s.log.toArray.qsort (· < ·)).toList
   let live := match s.watcher with
@@ -18,31 +24,33 @@ def report (s : St) : String × St :=
     | some (_, reg) => if reg.isEmpty then "empty" else String.intercalate "," ((reg.map wpStr).toArray.qsort (· < ·)).toList
   (s!"{String.intercalate "," calls}/e{s.errs}/{live}", { s with log := [], errs := 0 })
 
-def stepOp (acc : St × List String) (op : String) : St × List String :=
-  let (s, out) := acc
+def stepOp (acc : St × List String × List String) (op : String) : St × List String × List String :=
+  let (s, out, keep) := acc
+  let fin (s : St) : St × List String × List String :=
+    let (r, s) := report s; (s, out ++ [r], keep.filter (fun n => s.hooks.any (·.1 == n)))
   match op.splitOn ":" with
-  | ["set", ps, k] =>
-    let s := runWorker 16 (applyCfg s { paths := parsePaths ps, kind := parseKind k } true)
-    let (r, s) := report s; (s, out ++ [r])
-  | ["poke"] =>
-    let s := runWorker 16 { s with ver := s.ver + 1, pendingWake := true }
-    let (r, s) := report s; (s, out ++ [r])
-  | ["hook", n, ps, k] => ({ s with hooks := [(n, { paths := parsePaths ps, kind := parseKind k })] }, out)
-  | ["failw", n] => ({ s with failW := n :: s.failW, named := s.named.filter (·.1 != n) }, out)
+  | ["set", ps, k] => fin (runWorker 16 (resolveKeep keep (applyCfg s { paths := parsePaths ps, kind := parseKind k } true)))
+  | ["poke"] => fin (runWorker 16 (resolveKeep keep { s with ver := s.ver + 1, pendingWake := true }))
+  -- `kind:<kind>`: `Config::file_watcher` alone, while the worker is parked
+  | ["kind", k] => fin (runWorker 16 (resolveKeep keep (applyCfg s { s.cfg with kind := parseKind k } true)))
+  | ["hook", n, ps, k] => ({ s with hooks := [(n, { paths := parsePaths ps, kind := parseKind k })] }, out, [])
+  -- `hookk:<name>:<kind>`: inside the next watch / unwatch call on that name ONLY `Config::file_watcher` is called
+  | ["hookk", n, k] => ({ s with hooks := [(n, { paths := [], kind := parseKind k })] }, out, [n])
+  | ["failw", n] => ({ s with failW := n :: s.failW, named := s.named.filter (·.1 != n) }, out, keep)
   -- `failw:<name>:<shape>` / `failu:<name>:<shape>`: what the injected notify error names — `0` nothing, `s` the configured path itself,
   -- `1` one other path (a child), `s1` the configured path and a child, `2` two children
-  | ["failw", n, sh] => ({ s with failW := n :: s.failW, named := (n, shapeCount sh) :: s.named.filter (·.1 != n) }, out)
-  | ["failu", n, sh] => ({ s with failU := n :: s.failU, named := (n, shapeCount sh) :: s.named.filter (·.1 != n) }, out)
-  | ["okw", n] => ({ s with failW := s.failW.filter (· != n) }, out)
-  | ["failu", n] => ({ s with failU := n :: s.failU }, out)
-  | _ => (s, out ++ ["bad-op"])
+  | ["failw", n, sh] => ({ s with failW := n :: s.failW, named := (n, shapeCount sh) :: s.named.filter (·.1 != n) }, out, keep)
+  | ["failu", n, sh] => ({ s with failU := n :: s.failU, named := (n, shapeCount sh) :: s.named.filter (·.1 != n) }, out, keep)
+  | ["okw", n] => ({ s with failW := s.failW.filter (· != n) }, out, keep)
+  | ["failu", n] => ({ s with failU := n :: s.failU }, out, keep)
+  | _ => (s, out ++ ["bad-op"], keep)
 
 def handleLine (fx : Fixes) (line : String) : String :=
   match line.splitOn " " with
   | [id, ops] =>
     -- the worker starts, runs its first (empty) iteration and parks before the script begins
     let s0 := runWorker 16 { fx := fx }
-    let (_, out) := (ops.splitOn ";").foldl stepOp ({ s0 with log := [], errs := 0 }, [])
+    let (_, out, _) := (ops.splitOn ";").foldl stepOp ({ s0 with log := [], errs := 0 }, [], [])
     id ++ " " ++ String.intercalate ";" out
   | _ => "bad-line"
 
